@@ -9,6 +9,10 @@
 (*             (handle -> document; handles are numbered in order of creation: nSS, nSrc)          *)
 (*    lastError  whether getLastError() is non-empty: TRUE exactly when the last compile / parse / *)
 (*             transform call failed                                                               *)
+(*    residue0 (optional, hook H1) the vector of logical sizes of the execution context's stacks,   *)
+(*             caches and counters as measured on the newly constructed transformer (event New);   *)
+(*             every later event that reports a residue must report this same vector: a leak is    *)
+(*             caught at the call that causes it, not only when a later stylesheet observes it     *)
 (* `oracle` is not state of the transformer: it is what is known about NEWLY CREATED transformers, *)
 (* learned from Fresh events: <<"T", stylesheet, source, params, fns>> -> [status, out].           *)
 (* The property: every transformation returns exactly oracle[stylesheet, source, params and        *)
@@ -25,13 +29,13 @@ CONSTANTS PNames,      \* parameter names
           PVals,       \* names of the values a parameter can be set to
           FNames       \* external functions that can be installed
 
-VARIABLES params, fns, liveSS, nSS, liveSrc, nSrc, lastError, oracle
+VARIABLES params, fns, liveSS, nSS, liveSrc, nSrc, lastError, oracle, residue0
 
 NoFn == [x \in {} |-> x]                         \* the empty function
 
 Init0 == [params |-> [k \in PNames |-> "none"], fns |-> [f \in FNames |-> FALSE],
           liveSS |-> NoFn, nSS |-> 0, liveSrc |-> NoFn, nSrc |-> 0,
-          lastError |-> FALSE, oracle |-> NoFn]
+          lastError |-> FALSE, oracle |-> NoFn, residue0 |-> <<>>]
 
 TypeOK(s) == /\ s.params \in [PNames -> PVals \cup {"none"}]
              /\ s.fns \in [FNames -> BOOLEAN]
@@ -116,7 +120,13 @@ StepFresh(s, ev) ==
   ELSE R(ErrIs(ev, ev.status # 0), [s EXCEPT !.oracle = (key :> Outcome(ev)) @@ @],
          "fresh transformer: getLastError() must be non-empty exactly when the call failed")
 
-Step(s, ev) ==
+(* hook H1: the residue vector of the new transformer; <<>> = not measured *)
+StepNew(s, ev) == R(TRUE, [s EXCEPT !.residue0 = IF Has(ev, "residue") THEN ev.residue ELSE <<>>], "new transformer")
+
+FirstDiff(a, b) == IF Len(a) # Len(b) THEN 0 ELSE CHOOSE i \in 1..Len(a) : a[i] # b[i] /\ \A j \in 1..(i - 1) : a[j] = b[j]
+ResidueOk(s, ev) == (Has(ev, "residue") /\ s.residue0 # <<>>) => ev.residue = s.residue0
+
+StepCall(s, ev) ==
   CASE ev.e = "Compile"     -> StepCompile(s, ev)
     [] ev.e = "Parse"       -> StepParse(s, ev)
     [] ev.e = "SetParam"    -> StepSetParam(s, ev)
@@ -127,18 +137,30 @@ Step(s, ev) ==
     [] ev.e = "DestroySrc"  -> StepDestroySrc(s, ev)
     [] ev.e = "Transform"   -> StepTransform(s, ev)
     [] ev.e = "Fresh"       -> StepFresh(s, ev)
+    [] ev.e = "New"         -> StepNew(s, ev)
     [] OTHER                -> R(FALSE, s, "unknown event")
+
+(* nothing else carries over: after every call the residue is the one of the new transformer *)
+Step(s, ev) ==
+  LET r == StepCall(s, ev) IN
+  IF r.ok /\ ev.e # "New" /\ ~ResidueOk(s, ev)
+  THEN R(FALSE, r.st, "residue: after this call entry " \o ToString(FirstDiff(ev.residue, s.residue0)) \o
+                      " of the execution context's residue vector is " \o ToString(ev.residue) \o
+                      ", on the new transformer it was " \o ToString(s.residue0))
+  ELSE r
 
 (* ---- the same machine as TLA+ actions over the variables ------------------------------------- *)
 St == [params |-> params, fns |-> fns, liveSS |-> liveSS, nSS |-> nSS, liveSrc |-> liveSrc, nSrc |-> nSrc,
-       lastError |-> lastError, oracle |-> oracle]
-vars == <<params, fns, liveSS, nSS, liveSrc, nSrc, lastError, oracle>>
+       lastError |-> lastError, oracle |-> oracle, residue0 |-> residue0]
+vars == <<params, fns, liveSS, nSS, liveSrc, nSrc, lastError, oracle, residue0>>
 
 Becomes(s) == /\ params' = s.params /\ fns' = s.fns /\ liveSS' = s.liveSS /\ nSS' = s.nSS
               /\ liveSrc' = s.liveSrc /\ nSrc' = s.nSrc /\ lastError' = s.lastError /\ oracle' = s.oracle
+              /\ residue0' = s.residue0
 
 Init == /\ params = Init0.params /\ fns = Init0.fns /\ liveSS = Init0.liveSS /\ nSS = 0
         /\ liveSrc = Init0.liveSrc /\ nSrc = 0 /\ lastError = FALSE /\ oracle = Init0.oracle
+        /\ residue0 = <<>>
 
 (* an event is a step of the transformer iff the specification allows the observation *)
 Apply(ev) == Step(St, ev).ok /\ Becomes(Step(St, ev).st)
